@@ -166,6 +166,22 @@ def main(argv):
                 importlib.import_module("rigverif.rules." + prop)
                 n += 1
         print("%d rule modules import: ok" % n)
+        from . import nf_selftest, slips
+        bad = nf_selftest.run()
+        if bad:
+            print("ANALYSIS-ERROR source normal forms do not apply as "
+                  "expected:")
+            for b in bad:
+                print(b)
+            return 2
+        print("%d source normal forms: ok" % len(nf_selftest.CASES))
+        try:
+            kinds = slips.selftest()
+        except AnalysisError as e:
+            print("ANALYSIS-ERROR %s" % e)
+            return 2
+        print("SLIPS examples: %d reports over %d kinds: ok" % (
+            sum(kinds.values()), len(kinds)))
         return 0
     if not args or args[0] not in PROPS:
         print("usage: vcheck Cxx --tier quick|thorough")
